@@ -467,6 +467,57 @@ def r10_14(run, model):
            witness="rebuilding \"\u00e9\" (bytes C3 A9) with the string_len / string_get loop of 068_lisp_interp gives a 4-byte string that prints as `Ã©`")
 
 
+def r10_21(run, model):
+    run.rule("R10.21", "the string helpers count in one unit: string_len and string_get are the two halves of every index loop over a "
+                       "string (`while i < string_len(s) { string_get(s, i) }`), so what string_len measures (`len(s)`: bytes; `len([]rune(s))` "
+                       "/ utf8.RuneCountInString: characters) is what string_get indexes (`s[i]` / `[]rune(s)[i]`)")
+    RT = "crates/compiler/src/go/runtime.rs"
+
+    def go_name(st):
+        for fl in st["fields"]:
+            if fl["name"] == "name":
+                for l in S.walk(fl["expr"]):
+                    if l["k"] == "Lit" and l.get("lit") == "Str":
+                        return l["value"]
+        return None
+
+    def unit_of(e):
+        """what a goast expression over the parameter `s` ranges over: 'bytes' for the string itself, 'chars' for a rune conversion"""
+        for st in S.walk(e):
+            if st["k"] == "Struct" and st["segs"][-1] == "Call":
+                fn_ = next((fl["expr"] for fl in st["fields"] if fl["name"] == "func"), None)
+                nm = next((go_name(x) for x in S.walk(fn_) if x["k"] == "Struct" and x["segs"][-1] == "Var"), None) if fn_ is not None else None
+                if nm in ("[]rune", "utf8.RuneCountInString", "utf8.DecodeRuneInString"):
+                    return "chars"
+        for st in S.walk(e):
+            if st["k"] == "Struct" and st["segs"][-1] == "Var" and go_name(st) == "s":
+                return "bytes"
+        return None
+    units = {}
+    for name, what in (("string_len", "len"), ("string_get", None)):
+        f = model.fn(name, RT)
+        u = None
+        for st in S.walk(f.body):
+            if st["k"] != "Struct":
+                continue
+            if what == "len" and st["segs"][-1] == "Call":
+                fn_ = next((fl["expr"] for fl in st["fields"] if fl["name"] == "func"), None)
+                nm = next((go_name(x) for x in S.walk(fn_) if x["k"] == "Struct" and x["segs"][-1] == "Var"), None) if fn_ is not None else None
+                if nm in ("len", "utf8.RuneCountInString"):
+                    args = next((fl["expr"] for fl in st["fields"] if fl["name"] == "args"), None)
+                    u = "chars" if nm != "len" else (unit_of(args) if args is not None else None)
+            if what is None and st["segs"][-1] == "Index":
+                arr = next((fl["expr"] for fl in st["fields"] if fl["name"] == "array"), None)
+                u = unit_of(arr) if arr is not None else None
+        if u is None:
+            raise AnalysisIncomplete(f"{name}: what it counts / indexes was not recognised")
+        units[name] = u
+    ok = units["string_len"] == units["string_get"]
+    run.ob("R10.21", "string_len / string_get|one unit", ok, site(RT, model.fn("string_get", RT).node["sp"]),
+           f"string_len counts {units['string_len']}, string_get indexes {units['string_get']}",
+           witness="`while i < string_len(s) { string_get(s, i); i = i + 1 }` over \"h\u00e9llo\": the length is 6 bytes, the last index asks for the 6th of 5 characters - index out of range at run time")
+
+
 def r10_15(run, model):
     run.rule("R10.15", "literal text is read one way: the type checker validates a literal and the TAST builder parses it again on its own, so "
                        "every place that turns numeric literal text into a number (`.parse()` in typer/check.rs, typer/tast_builder.rs and the "
@@ -646,6 +697,7 @@ def run(run, model):
     run.try_rule(r10_20, model)
     run.try_rule(r10_13, model)
     run.try_rule(r10_14, model)
+    run.try_rule(r10_21, model)
     run.try_rule(r10_6, model)
     run.try_rule(r10_7, model)
     run.try_rule(r10_8, model)
